@@ -111,7 +111,7 @@ def run(ctx):
     # ---- I->S: the real egress
     nbeh = 60 if th else 10
     behs = behaviours(ctx, nbeh)
-    env = {"VERIF_NSCN": 130 if th else 20, "VERIF_NLSTALL": 4 if th else 2, "VERIF_NNEWEGRESS": 2 if th else 1,
+    env = {"VERIF_NSCN": 130 if th else 20, "VERIF_NLSTALL": 3 if th else 1, "VERIF_NOVERDUE": 4 if th else 2, "VERIF_NNEWEGRESS": 2 if th else 1,
            "VERIF_PAR": 8 if th else 6, "VERIF_NFILES": 8 if th else 3}
     res, out, rc = ctx.go_test("internal/balancer", "TestVerifC31", inp=behs, env=env, timeout=1500 if th else 600)
     res = ctx.need_result(res, out, rc, "TestVerifC31")
@@ -119,7 +119,7 @@ def run(ctx):
     if consts.get("bufferLen") != 200 or consts.get("swapThreshold") != 40 or consts.get("pktHeadLen") != 4:
         raise Infra("code constants changed (%s): specs/BalancerTrace.cfg must be re-instantiated" %
                     {k: consts.get(k) for k in ("bufferLen", "swapThreshold", "pktHeadLen")})
-    total = env["VERIF_NSCN"] + env["VERIF_NLSTALL"] + env["VERIF_NNEWEGRESS"] + len(behs)
+    total = env["VERIF_NSCN"] + env["VERIF_NLSTALL"] + env["VERIF_NOVERDUE"] + env["VERIF_NNEWEGRESS"] + len(behs)
     ninfra = res.get("counters", {}).get("infra", 0)
     if ninfra:
         ctx.log("scenarios without a usable trace: %d of %d: %s" % (ninfra, total, (res.get("notes") or [])[:5]))
@@ -158,6 +158,10 @@ def run(ctx):
                 line = int(m.group(1)) - 1
         scn, kind, ev = scenario_at(keep, line) if line else (None, None, None)
         sig = tv.violated if tv.violated.startswith("invariant") else "trace-rejected"
+        if kind == "lstall" and sig == "invariant:Prompt":
+            sig = "write-deadline-never-armed"   # the stalled-listener scenario: the write deadline is what is being tested
+        if sig == "invariant:DeadlineHonoured":
+            sig = "write-deadline-never-armed"   # same defect, deterministic witness (write held past WriteTimeout succeeds)
         ctx.violation(sig, "real balancer execution violates %s at trace line %s (scenario %s, %s): %s" %
                       (tv.violated, line, scn, kind, ev), keep)
     ctx.ev.add_impl("balancer executions accepted by BalancerTrace", accepted, steps=res["steps"],
